@@ -1168,11 +1168,15 @@ pub fn run(report: &Report, tier: Tier) {
     let cfgs = configs(tier);
     report.extra("bounds", Value::Object(cfgs.iter().map(|(n, b)| (n.to_string(), b.to_json())).collect()));
     report.rule(
-        "explicit-state BFS to the fixpoint: every enabled operation (Sleep/Timeout/Tick/Poll/Drop/Busy/Loop(delta), see bounds) is applied to every distinct canonical state; each transition is executed on a fresh REAL TimerRuntime + real Sleep/Timeout/Interval futures (transplanted source, virtual clock) by replaying the state's history; states = distinct canonical observations, transitions = operations executed from distinct states, evaluations = transitions checked against the oracles; distinct_nontrivial = distinct (operation kind, result, clock-deadline) signatures; traces_validated_against_impl = maximal traces of the reduced space replayed on the real compio_runtime::Runtime in real time",
+        "explicit-state BFS to the fixpoint: every enabled operation (Sleep/Timeout/Tick/Poll/Drop/Busy/Loop(delta), see bounds) is applied to every distinct canonical state; each transition is executed on a fresh REAL TimerRuntime + real Sleep/Timeout/Interval futures (transplanted source, virtual clock) by replaying the state's history; states = distinct canonical observations (= evaluations: each state's shortest history executed and checked), transitions = operations executed from distinct states, each checked against the transition oracles and the state invariants; distinct_nontrivial = distinct (operation kind, result, clock-deadline) signatures; traces_validated_against_impl = maximal traces of the reduced space replayed on the real compio_runtime::Runtime in real time",
     );
     for &e in MUST_REACH {
         report.must_reach(EVENTS[e]);
     }
+    report.assume("the model-checked object is the text of compio-runtime/src/time/{mod,runtime,future}.rs of the current tree compiled inside the harness: `std::time::Instant` is re-bound to a virtual clock with std's API and arithmetic conventions, `crate::Runtime` to a stand-in providing `with_current` and the `timer_runtime` field; the run loop of Runtime::block_on/poll/poll_with is modelled by Loop(delta) = min_timeout(); clock += delta; wake() as read from compio-runtime/src/lib.rs (not transplanted)");
+    report.assume("states are merged by a canonical observation of the real object plus harness reference state; the adequacy of the abstractions in it (generation renaming, waker symmetry, due/expired/ready collapsing, interval start modulo period) is argued in model.rs from reading the code, not checked mechanically; every transition itself is executed on the real code, so a wrong merge can only lose coverage, never raise a false alarm");
+    report.assume("determinism guard: every expanded state is rebuilt by replay and its canonical observation compared with the one recorded when it was discovered (mismatch = machinery error)");
+    report.assume("oracle reading of the statement: a timer registered although its deadline is not in the future may stay Pending until the next wake() (completion is required 'once the deadline has passed' and the runtime had a loop iteration); min_timeout() shorter than the nearest deadline is counted, not a violation (the statement only forbids sleeping longer)");
     let mut stats = Vec::new();
     for (i, (name, b)) in cfgs.iter().enumerate() {
         stats.push(run_config(report, name, b, i == 0));
@@ -1321,7 +1325,9 @@ fn run_config(report: &Report, name: &str, b: &Bounds, with_samples: bool) -> Va
     }
     report.add_states(seen.len() as u64);
     report.add_transitions(transitions);
-    report.evaluations.fetch_add(transitions, Ordering::Relaxed);
+    // one evaluation per distinct state (its history executed on a fresh real object and checked);
+    // vcore reports states = max(states, evaluations), so transitions are reported as transitions
+    report.evaluations.fetch_add(seen.len() as u64, Ordering::Relaxed);
     let ev = events.into_inner().unwrap();
     for (i, name) in EVENTS.iter().enumerate() {
         if ev[i] > 0 {
